@@ -219,7 +219,7 @@ def encode_bases(bases: list[dict]) -> list[bytes]:
 # corrupted block (bytes), or None when it does not apply. `group` is the canonical corruption kind.
 
 GROUPS = {
-    'len+1': 'length', 'len-1': 'length', 'len0': 'length', 'huge': 'length', 'len+4': 'length',
+    'len+1': 'length', 'len-1': 'length', 'len0': 'length', 'huge': 'length', 'len+4': 'length', 'self-tlv': 'length',
     'flag-opt': 'flags', 'flag-trans': 'flags', 'flag-both': 'flags',
     'flag-part': 'flag-noise', 'flag-ext': 'flag-noise', 'flag-low': 'flag-noise',
     'value-a': 'value', 'value-b': 'value', 'value-c': 'value', 'value-d': 'value',
@@ -281,6 +281,9 @@ def corrupt(kind: str, ts: list[dict], i: int, rng, asn4: bool) -> bytes | None:
     pre, post = ser(ts[:i]), ser(ts[i + 1 :])
     if kind == 'len+1':
         return pre + tlv(flag, code, v + bytes([rng.randrange(256)])) + post
+    if kind == 'self-tlv':
+        # the value is the attribute's own TLV: what a table keyed by whole attributes instead of values would know
+        return pre + tlv(flag, code, tlv(flag, code, v)) + post if len(v) + 3 <= 255 else None
     if kind == 'len+4':
         return pre + tlv(flag, code, v + bytes(rng.randrange(256) for _ in range(4))) + post
     if kind == 'len-1':
@@ -370,11 +373,14 @@ class Session:
     def close(self) -> None:
         self.loop.close()
 
+    keep_caches = False  # history pass: what earlier messages (of any session) left in the process-wide caches stays
+
     def reset(self) -> None:
         from exabgp.bgp.message.update.attribute import AttributeCollection
 
-        AttributeCollection.cached = None
-        AttributeCollection.previous = b''
+        if not Session.keep_caches:
+            AttributeCollection.cached = None
+            AttributeCollection.previous = b''
         self.n.rib.incoming.clear()
         self.events.clear()
 
